@@ -163,7 +163,7 @@ def lattice_spec(ty, inp):
     else:
         raise lib.Infra("lattice_spec did not converge")
     name = "dist" if sssp else "hops"
-    rows = sorted(((k, ("Dual(%d)" % v) if sssp else v) for k, v in val.items()), key=repr)
+    rows = sorted(val.items(), key=repr)       # `{:?}` of ascent::Dual(v) prints v
     return {"edge": (len(set(edges)), sorted(set(edges), key=repr)), "src": (len(inp["src"]), sorted(set(tuple(t) for t in inp["src"]), key=repr)), name: (len(rows), rows)}
 
 
@@ -190,9 +190,9 @@ def gen_config(rng, mode, quick=True):
     return c
 
 
-def gen_configs(rng, n, quick=True):
-    order = ["par_iter", "scope", "join", "par_iter_max1", "scope_fifo", "global", "par_iter", "scope"]
-    return [gen_config(rng, order[i % len(order)], quick) for i in range(n)]
+def gen_configs(rng, n, quick=True, offset=0):
+    order = ["par_iter", "scope", "join", "global", "par_iter_max1", "scope_fifo"]
+    return [gen_config(rng, order[(i + offset) % len(order)], quick) for i in range(n)]
 
 
 def describe(cfg, world=None):
@@ -304,7 +304,7 @@ fn main() {
          let ch = construct2 == "job";
          let r = std::panic::catch_unwind(std::panic::AssertUnwindSafe(|| {
             if construct2 == "before" { for i in insts.iter_mut() { i.construct(); PROGRESS.fetch_add(1, SeqCst); } }
-            let body = || {
+            let mut body = || {
                if construct2 == "pool" { insts.par_iter_mut().for_each(|i| { i.construct(); PROGRESS.fetch_add(1, SeqCst); }); }
                match mode2.as_str() {
                   "par_iter" | "global" => insts.par_iter_mut().enumerate().for_each(|(i, x)| go(i, x, ch, states)),
@@ -600,7 +600,7 @@ def run(tier, seed, corpus=(), tag="c20sh"):
     for i in range(nworlds):
         w = gen_world(rng, "w%d" % i)
         worlds.append(w)
-        configs_of[w["id"]] = gen_configs(rng, nconf, quick)
+        configs_of[w["id"]] = gen_configs(rng, nconf, quick, offset=2 * i)
     return check(worlds, configs_of, tag + ("" if lib.REPO == "/repo" else "_alt"), noprog=10.0, total=20.0 if quick else 60.0, parallel=5 if quick else 6)
 
 
